@@ -19,7 +19,8 @@ KINDS = ["asynq-plain", "asynq-generator", "asynq-batch", "asynq-pure", "async_p
          "make_async_decorator", "deduplicate", "aretry", "alru_cache", "acached_per_instance",
          "pure-generator", "proxy-pair", "deduplicate-generator"]
 BINDINGS = ["function", "instance", "class", "subclass-instance", "classmethod", "staticmethod",
-            "falsy instance (defines __len__ -> 0)"]
+            "falsy instance (defines __len__ -> 0)", "classmethod via subclass after access via base class",
+            "second instance after access via first instance"]
 
 
 class _B(asynq.BatchBase):
@@ -97,13 +98,13 @@ def build(kind, binding):
                     return (who, None, a, y, z)
         return body
 
-    has_recv = binding in (1, 2, 3, 4, 6)
+    has_recv = binding in (1, 2, 3, 4, 6, 7, 8)
     gen = {1: 1, 2: 2, 11: 1, 13: 1}.get(kind, 0)
     raw = mk_body("async", has_recv, gen)
     sync_raw = mk_body("sync", has_recv, 0)
 
     def wrap_binding(f):
-        if binding == 4:
+        if binding in (4, 7):
             return classmethod(f)
         if binding == 5:
             return staticmethod(f)
@@ -129,7 +130,7 @@ def build(kind, binding):
         else:
             # AsyncAndSyncPairProxyDecorator does not rebind sync_fn (no __get__): the binder prepends
             # the class itself, so for a classmethod the sync_fn is given as a plain function
-            dec = async_proxy(sync_fn=sync_raw if binding == 4 else wrap_binding(sync_raw))(wrap_binding(proxy_body))
+            dec = async_proxy(sync_fn=sync_raw if binding in (4, 7) else wrap_binding(sync_raw))(wrap_binding(proxy_body))
     elif kind == 5:
         dec = A(sync_fn=wrap_binding(sync_raw))(wrap_binding(raw))
     elif kind == 6:
@@ -175,17 +176,26 @@ def build(kind, binding):
     if binding == 6:
         inst = Falsy(9)
         return inst.m, inst, None, pure, has_sync, wrapped, raw, sync_raw, log
+    if binding == 7:
+        K.m                 # the attribute is first looked up on the base class ...
+        K.m
+        return Sub.m, Sub, None, pure, has_sync, wrapped, raw, sync_raw, log   # ... then used through the subclass
+    if binding == 8:
+        first = K(1)
+        first.m
+        inst = K(2)
+        return inst.m, inst, None, pure, has_sync, wrapped, raw, sync_raw, log
     raise AssertionError(binding)
 
 
 def applicable(kind, binding):
-    if kind in (8, 9) and binding not in (0, 1, 6):
+    if kind in (8, 9) and binding not in (0, 1, 6, 8):
         return False
-    if kind == 9 and binding == 6:
+    if kind == 9 and binding in (6, 8):
         return False
     if kind == 9 and binding == 1:
         return False        # alru_cache drops the first parameter from its key: written for functions
-    if kind == 10 and binding not in (1, 6):
+    if kind == 10 and binding not in (1, 6, 8):
         return False
     if kind == 9 and binding == 0:
         return True
@@ -344,7 +354,7 @@ def f_plain_helpers(which, x):
 
 def conds(tier):
     out = []
-    out.append(Cond("matrix", f_matrix, [I("kind", 0, len(KINDS) - 1), I("binding", 0, 6), I("sp", 0, 3),
+    out.append(Cond("matrix", f_matrix, [I("kind", 0, len(KINDS) - 1), I("binding", 0, 8), I("sp", 0, 3),
                                          I("x"), I("y"), I("z")], pin=1, builds=("C", "P"), budget=200,
                     family="decorator kind x binding x argument spelling, symbolic arguments", encodes=ENC))
     out.append(Cond("helpers", f_plain_helpers, [I("which", 0, 2), I("x")], pin=0, builds=("C", "P"), budget=60,
